@@ -24,6 +24,8 @@ type Case struct {
 	// the broadcasts out — not FIFO) after every k-th operation and at the end; 0/1 = after every
 	// operation. A and B are compared at the drain points.
 	DrainEvery int `json:"drain_every,omitempty"`
+	// ClockBase: first stamp of the virtual clock (0 = 1e6; realistic UnixNano values lie beyond 2^53)
+	ClockBase int64 `json:"clock_base,omitempty"`
 }
 
 func run(c Case) (msg string, nontrivial bool) {
@@ -36,6 +38,9 @@ func run(c Case) (msg string, nontrivial bool) {
 	a, p, b := dst.NewNode(1), dst.NewNode(2), dst.NewNode(3)
 	sem := dst.NewSem()
 	clock := int64(1_000_000)
+	if c.ClockBase != 0 {
+		clock = c.ClockBase
+	}
 	for _, op := range c.PeerPre {
 		clock += 10
 		dst.SetNow(clock)
@@ -132,6 +137,7 @@ func TestRandom(t *testing.T) {
 			c.Ops = append(c.Ops, dst.GenOp(t, 4, 4, 4, []uint64{1, 2}, true))
 		}
 		c.DrainEvery = rapid.SampledFrom([]int{1, 1, 2, 3, 5, 1000}).Draw(t, "drainEvery")
+		c.ClockBase = rapid.SampledFrom(dst.ClockBases).Draw(t, "clockBase")
 		check(t, c)
 	})
 }
